@@ -24,6 +24,7 @@ import (
 	"io"
 	"net/http"
 	"os"
+	"os/exec"
 	"runtime"
 	"runtime/debug"
 	"sort"
@@ -87,8 +88,8 @@ type c16Parser struct {
 	tokens  []string
 	seeds   [][]byte
 	single  [][]byte // extra seeds that only get single edits (no pairs, no splices)
-	stream  bool // reads from an io.Reader (also run with 1-byte reads)
-	confine bool // @file references must stay inside the sandbox
+	stream  bool     // reads from an io.Reader (also run with 1-byte reads)
+	confine bool     // @file references must stay inside the sandbox
 	memBase uint64
 	run     func(in []byte, rd *c16Reader) c16Out
 }
@@ -640,7 +641,61 @@ func (c *c16Collector) add(f *c16Fail, in []byte, family string) {
 	}
 }
 
+// c16LongRuns: inputs that consist of one token repeated very often (up to 2^24 bytes), optionally followed by the
+// parser's first seed. A parser that recurses or allocates per repetition only shows at such lengths, and the
+// failure (stack overflow, out of memory) kills the process - so they run in a child process per parser.
+var c16RunCounts = []int{1 << 12, 1 << 17, 1 << 24}
+
+func c16LongInputs(p *c16Parser) (names []string, gen []func() []byte) {
+	for _, tok := range p.tokens {
+		if len(tok) > 2 {
+			continue
+		}
+		for _, n := range c16RunCounts {
+			tok, n := tok, n
+			reps := n / len(tok)
+			names = append(names, fmt.Sprintf("%q x %d", tok, reps))
+			gen = append(gen, func() []byte { return bytes.Repeat([]byte(tok), reps) })
+			if len(p.seeds) > 0 {
+				names = append(names, fmt.Sprintf("%q x %d + seed", tok, reps))
+				gen = append(gen, func() []byte { return append(bytes.Repeat([]byte(tok), reps), p.seeds[0]...) })
+			}
+		}
+	}
+	return
+}
+
+func c16Child(t *testing.T, name string) {
+	dir := t.TempDir()
+	os.WriteFile(dir+"/f", []byte("BODY"), 0o644)
+	os.Chdir(dir)
+	for _, p := range c16Parsers() {
+		if p.name != name {
+			continue
+		}
+		names, gen := c16LongInputs(p)
+		for i := range names {
+			fmt.Printf("C16-START %s\n", names[i])
+			in := gen[i]()
+			if p.confine && !c16Confined(in) {
+				fmt.Printf("C16-SKIP\n")
+				continue
+			}
+			_, _, fail := c16Call(p, in, 0)
+			if fail != nil {
+				fmt.Printf("C16-FAIL %s\n", fail.key)
+			}
+			fmt.Printf("C16-OK\n")
+		}
+	}
+	fmt.Printf("C16-DONE\n")
+}
+
 func TestC16(t *testing.T) {
+	if name := os.Getenv("C16_CHILD"); name != "" {
+		c16Child(t, name)
+		return
+	}
 	R := ev.New("C16")
 	R.Rule = "per parser: ALL strings of <= L tokens over its token alphabet (L=5 quick / 6 thorough), every seed document, ALL single edits of every seed at every position {delete byte, 8 bit flips, insert each token, duplicate next 1/2/4/8 bytes, truncate}, ALL ordered pairs of such edits on seeds <= 40 (thorough 120) bytes, ALL splices seedA[:i]+seedB[j:] (quick: every second ordered seed pair); stream parsers also with a source that returns 1 byte per Read for seeds and single edits. evaluations = parser calls under the oracle; states = distinct (parser, behaviour) classes (values produced, normalised error); distinct_nontrivial = distinct (parser, input bytes) that made the parser produce at least one value (result / target / bucket list / accepted flag value)"
 	R.Assume("allocation bound (TotalAlloc delta, GC off, single goroutine) is measured in a separate sequential pass over: every seed, all single edits of every seed, and all token strings of <= 3 (thorough 4) tokens; the parallel pass cannot attribute allocation to a call")
@@ -907,5 +962,57 @@ func TestC16(t *testing.T) {
 	if inconclusive.Load() {
 		fmt.Println("INCONCLUSIVE: C16 harness watchdog fired (see caps_hit in the evidence); this is not a property violation")
 	}
+	// ---- long runs of one token, one child process per parser ---------------------------------------------
+	type lr struct{ parser, input, what string }
+	lrs := make([][]lr, len(parsers))
+	ev.Parallel(len(parsers), 8, func(pi int) {
+		p := parsers[pi]
+		names, _ := c16LongInputs(p)
+		if len(names) == 0 {
+			return
+		}
+		cmd := exec.Command(os.Args[0], "-test.run=^TestC16$", "-test.v", "-test.timeout=20m")
+		cmd.Env = append(os.Environ(), "C16_CHILD="+p.name)
+		out, err := cmd.CombinedOutput()
+		so := string(out)
+		last, okCount := "", 0
+		for _, l := range strings.Split(so, "\n") {
+			switch {
+			case strings.HasPrefix(l, "C16-START "):
+				last = strings.TrimPrefix(l, "C16-START ")
+			case l == "C16-OK" || l == "C16-SKIP":
+				okCount++
+				last = ""
+			case strings.HasPrefix(l, "C16-FAIL "):
+				lrs[pi] = append(lrs[pi], lr{p.name, last, strings.TrimPrefix(l, "C16-FAIL ")})
+			}
+		}
+		R.Eval(okCount)
+		R.Part("calls:long-runs", p.name, okCount)
+		if !strings.Contains(so, "C16-DONE") {
+			what := "the process died"
+			for _, marker := range []string{"stack overflow", "out of memory", "panic:", "fatal error"} {
+				if i := strings.Index(so, marker); i >= 0 {
+					what = ev.Trunc(so[i:], 160)
+					break
+				}
+			}
+			if last != "" {
+				lrs[pi] = append(lrs[pi], lr{p.name, last, "crash: " + what})
+			} else if err != nil {
+				R.Cap("long-runs child for " + p.name + " failed outside a parser call: " + ev.Trunc(so, 200))
+			}
+		}
+	})
+	for _, l := range lrs {
+		for _, x := range l {
+			kind := "crash"
+			if !strings.HasPrefix(x.what, "crash") {
+				kind = "fail"
+			}
+			R.Violation(x.parser+":long-run:"+kind, map[string]any{"parser": x.parser, "input": x.input, "what": x.what})
+		}
+	}
+
 	R.Finish(t)
 }
